@@ -307,15 +307,19 @@ Section Thermo.
     mat_cs : option (list cset);                       (* _matrix_cs *)
     pts : list (Ph * (Tm * Smp));                      (* _points_cache *)
     diff_cs : list (Ph * list cset);                   (* _diffusivity_cache *)
-    curv_cs : list (Ph * list cset) }.                 (* _compset_cache_curvature (MultiTherm) *)
+    curv_cs : list (Ph * list cset);                   (* _compset_cache_curvature (MultiTherm) *)
+    curv_out : list (Ph * Val) }.                      (* _curvature_outputs (MultiTherm): NOT dropped by clearCache *)
 
   (* clearCache *)
-  Definition t_init : tstate := mkT [] None [] [] [].
-  Definition set_df s v := mkT v (mat_cs s) (pts s) (diff_cs s) (curv_cs s).
-  Definition set_mat s v := mkT (df_cs s) v (pts s) (diff_cs s) (curv_cs s).
-  Definition set_pts s v := mkT (df_cs s) (mat_cs s) v (diff_cs s) (curv_cs s).
-  Definition set_diff s v := mkT (df_cs s) (mat_cs s) (pts s) v (curv_cs s).
-  Definition set_curv s v := mkT (df_cs s) (mat_cs s) (pts s) (diff_cs s) v.
+  Definition t_init : tstate := mkT [] None [] [] [] [].
+  Definition set_df s v := mkT v (mat_cs s) (pts s) (diff_cs s) (curv_cs s) (curv_out s).
+  Definition set_mat s v := mkT (df_cs s) v (pts s) (diff_cs s) (curv_cs s) (curv_out s).
+  Definition set_pts s v := mkT (df_cs s) (mat_cs s) v (diff_cs s) (curv_cs s) (curv_out s).
+  Definition set_diff s v := mkT (df_cs s) (mat_cs s) (pts s) v (curv_cs s) (curv_out s).
+  Definition set_curv s v := mkT (df_cs s) (mat_cs s) (pts s) (diff_cs s) v (curv_out s).
+  Definition set_curv_out s v := mkT (df_cs s) (mat_cs s) (pts s) (diff_cs s) (curv_cs s) v.
+  (* clearCache: every cache, but not the last curvature outputs *)
+  Definition clear_cache s := mkT [] None [] [] [] (curv_out s).
 
   (* ---- _interdiffusivitySingle / _tracerDiffusivitySingle ---- *)
   Definition diffusivity (val : Res -> list cset -> Val) (s : tstate) (x : X) (T : Tm) (rm : bool) (p : Ph)
@@ -327,7 +331,7 @@ Section Thermo.
 
   (* ---- _resetDrivingForceCache ---- *)
   Definition reset_df (s : tstate) (p : Ph) (rm : bool) : tstate :=
-    if rm then mkT (aset p None (df_cs s)) None (aset p None (pts s)) (diff_cs s) (curv_cs s) else s.
+    if rm then mkT (aset p None (df_cs s)) None (aset p None (pts s)) (diff_cs s) (curv_cs s) (curv_out s) else s.
 
   (* ---- _getPrecCompositionSetSamplingDF ---- *)
   Definition prec_sample (s : tstate) (T : Tm) (mu : Res) (p : Ph) : tstate * (Val * cset) :=
@@ -408,16 +412,40 @@ Section Thermo.
     | _ => df_sampling (set_df s (aset p None (df_cs s))) x T p rm
     end.
 
+  (* ---- MulticomponentThermodynamics.curvatureFactor (no search direction) ---- *)
+  Variable cval : Res -> cset -> cset -> Val.          (* _curvatureFactorFromEq *)
+  Definition curvature (s : tstate) (x : X) (T : Tm) (p : Ph) (rm : bool) : tstate * option Val :=
+    let cached := aget p (curv_cs s) in
+    (* the solver works in place: cached sets are left as the update of this call left them *)
+    let s0 := match cached with
+              | Some l0 => set_curv s (aset p (Some (snd (local_eq [0%nat; p] (cond_x x T gOff) (Some l0)))) (curv_cs s))
+              | None => s
+              end in
+    match compsets_eq cached x T p with
+    | Some (mu, Some cm, Some cp) =>
+        let v := cval mu cm cp in
+        (set_curv_out (set_curv s0 (aset p (if rm then None else Some [cm; cp]) (curv_cs s0)))
+                      (aset p (Some v) (curv_out s0)), Some v)
+    | _ =>
+        (* _process_invalid_eq: removeCache is honoured BEFORE looking for a previous result *)
+        let u := if rm then set_curv s0 (aset p None (curv_cs s0)) else s0 in
+        match aget p (curv_cs u) with
+        | None => (u, None)
+        | Some _ => (u, aget p (curv_out u))
+        end
+    end.
+
   (* ---- a history of queries ---- *)
   Inductive method := Tangent | Sampling | Approx.
   Inductive query :=
   | QDF (x : X) (T : Tm) (p : Ph) (rm : bool)          (* getDrivingForce, one point *)
   | QInter (x : X) (T : Tm) (p : Ph) (rm : bool)       (* getInterdiffusivity *)
   | QTracer (x : X) (T : Tm) (p : Ph) (rm : bool)      (* getTracerDiffusivity *)
+  | QCurv (x : X) (T : Tm) (p : Ph) (rm : bool)        (* curvatureFactor *)
   | QClear                                             (* clearCache *)
   | QMethod (m : method).                              (* setDrivingForceMethod *)
 
-  Inductive answer := ADF (r : option (Val * Val)) | AVal (v : Val) | ANone.
+  Inductive answer := ADF (r : option (Val * Val)) | AVal (v : Val) | ACurv (r : option Val) | ANone.
 
   (* the object: the configured driving-force method and the caches *)
   Definition obj := (method * tstate)%type.
@@ -434,7 +462,8 @@ Section Thermo.
                        end in ((m, s'), ADF r)
     | QInter x T p rm => let (s', v) := interdiff s x T rm p in ((m, s'), AVal v)
     | QTracer x T p rm => let (s', v) := tracer s x T rm p in ((m, s'), AVal v)
-    | QClear => ((m, t_init), ANone)
+    | QCurv x T p rm => let (s', r) := curvature s x T p rm in ((m, s'), ACurv r)
+    | QClear => ((m, clear_cache s), ANone)
     | QMethod m' => ((m', set_df s []), ANone)
     end.
 
@@ -447,16 +476,17 @@ End Thermo.
 
 Arguments mkcs {Tm G Y}. Arguments cs_ph {Tm G Y}. Arguments cs_T {Tm G Y}. Arguments cs_g {Tm G Y}. Arguments cs_y {Tm G Y}.
 Arguments refresh {Tm G Y Cd}. Arguments local_eq {Tm G Y Res Cd}.
-Arguments mkT {Tm G Y Smp}. Arguments df_cs {Tm G Y Smp}. Arguments mat_cs {Tm G Y Smp}. Arguments pts {Tm G Y Smp}.
-Arguments diff_cs {Tm G Y Smp}. Arguments curv_cs {Tm G Y Smp}.
-Arguments t_init {Tm G Y Smp}. Arguments set_df {Tm G Y Smp}. Arguments set_mat {Tm G Y Smp}. Arguments set_pts {Tm G Y Smp}.
-Arguments set_diff {Tm G Y Smp}. Arguments set_curv {Tm G Y Smp}. Arguments reset_df {Tm G Y Smp}.
+Arguments mkT {Tm G Y Smp Val}. Arguments df_cs {Tm G Y Smp Val}. Arguments mat_cs {Tm G Y Smp Val}. Arguments pts {Tm G Y Smp Val}.
+Arguments diff_cs {Tm G Y Smp Val}. Arguments curv_cs {Tm G Y Smp Val}. Arguments curv_out {Tm G Y Smp Val}.
+Arguments t_init {Tm G Y Smp Val}. Arguments set_df {Tm G Y Smp Val}. Arguments set_mat {Tm G Y Smp Val}. Arguments set_pts {Tm G Y Smp Val}.
+Arguments set_diff {Tm G Y Smp Val}. Arguments set_curv {Tm G Y Smp Val}. Arguments set_curv_out {Tm G Y Smp Val}.
+Arguments clear_cache {Tm G Y Smp Val}. Arguments reset_df {Tm G Y Smp Val}.
 Arguments diffusivity {X Tm G Y Res Smp Val Cd}. Arguments interdiff {X Tm G Y Res Smp Val Cd}. Arguments tracer {X Tm G Y Res Smp Val Cd}.
 Arguments prec_sample {Tm G Y Res Smp Val}. Arguments df_sampling {X Tm G Y Res Smp Val} Tm_eqb {Cd}.
 Arguments df_tangent {X Tm G Y Res Smp Val} Tm_eqb {Cd}. Arguments compsets_eq {X Tm G Y Res Cd}.
 Arguments df_approx {X Tm G Y Res Smp Val} Tm_eqb {Cd}.
 Arguments pick {Tm G Y}. Arguments count_ph {Tm G Y}. Arguments gap {Tm G Y}.
-Arguments QDF {X Tm}. Arguments QInter {X Tm}. Arguments QTracer {X Tm}. Arguments QClear {X Tm}. Arguments QMethod {X Tm}.
-Arguments ADF {Val}. Arguments AVal {Val}. Arguments ANone {Val}.
-Arguments obj_init {Tm G Y Smp}.
+Arguments QDF {X Tm}. Arguments QInter {X Tm}. Arguments QTracer {X Tm}. Arguments QCurv {X Tm}. Arguments QClear {X Tm}. Arguments QMethod {X Tm}.
+Arguments ADF {Val}. Arguments AVal {Val}. Arguments ACurv {Val}. Arguments ANone {Val}.
+Arguments obj_init {Tm G Y Smp Val}. Arguments curvature {X Tm G Y Res Smp Val Cd}.
 Arguments run1 {X Tm G Y Res Smp Val} Tm_eqb {Cd}. Arguments run {X Tm G Y Res Smp Val} Tm_eqb {Cd}.
